@@ -61,6 +61,9 @@ def main(prop, tier):
         matrix_viols = []
         if prop == 'C20':
             matrix_viols, extra['subprocess_matrix'] = cli_matrix(tier)
+        mc_viols = []
+        if prop == 'C20':
+            mc_viols, extra['monte_carlo_embedded'] = mc_embedded(tier, base)
         batch = D.Batch(histsim, prop, tier).open()
         tally = D.Tally()
         digests, rdigests, walls = {}, {}, {}
@@ -73,7 +76,10 @@ def main(prop, tier):
         if prop == 'C20':
             force = None
         payloads = ({'seed': D.run_seed(base, i), 'tier': tier, 'parse_orders': 4 if tier == 'quick' else 16} for i in range(max_runs))
-        for idx, pl, rec in batch.run(payloads, per_run, deadline=t0 + budget):
+        t_explore = time.monotonic()
+        if prop == 'C20':
+            budget = max(30.0, budget - 15.0)     # the enumerated phases above have their own (small) budgets
+        for idx, pl, rec in batch.run(payloads, per_run, deadline=t_explore + budget):
             if rec.get('harness_error'):
                 continue
             evaluations += 1
@@ -105,7 +111,7 @@ def main(prop, tier):
             for v in rec.get('violations') or []:
                 if v['property'] == prop:
                     viols.append((pl, rec, v))
-        explore_wall = time.monotonic() - t0
+        explore_wall = time.monotonic() - t_explore
         # ---- determinism + hash-seed independence ------------------------------------------
         det = {'pairs': 0, 'mismatches': 0}
         fastish = sorted(s for s in digests if walls.get(s, 0.0) < (4.0 if tier == 'quick' else 30.0))
@@ -149,6 +155,13 @@ def main(prop, tier):
             else:
                 new.append((pl, rec, v))
         mnew = []
+        for pl, rec, v in mc_viols:
+            f = D.match_finding(v, findings)
+            if f is not None:
+                known_seen.setdefault(f['key'], (f, v, pl))
+            else:
+                v = dict(v, case={'id': f"mc-{pl['seed']}", 'seed': pl['seed'], 'engine': 'mcsim', 'force': pl.get('force')})
+                mnew.append(v)
         for v in matrix_viols:
             f = D.match_finding(v, findings)
             if f is not None:
@@ -381,6 +394,32 @@ def cli_matrix(tier):
         return [v for v in viols if v['cls'] != 'harness'], info
     finally:
         shutil.rmtree(root, ignore_errors=True)
+
+
+def mc_embedded(tier, base):
+    """small batch of simulated Monte-Carlo runs with GEOPHIRES as the program: the report each iteration copies from its
+    client is compared with the client run of base input + recorded sampled values (C20, Monte-Carlo-embedded clause)"""
+    from . import mcsim
+    budget = 12.0 if tier == 'quick' else 120.0
+    b = D.Batch(mcsim, 'C20', tier).open()
+    viols = []
+    n = compared = 0
+    t0 = time.monotonic()
+    try:
+        pls = ({'seed': D.run_seed(base, 500000 + i), 'tier': tier, 'force': {'program': 'geo', 'mode': 'strict'}, 'replay_rows': 3}
+               for i in range(100000))
+        for idx, pl, rec in b.run(pls, 240.0, deadline=t0 + budget):
+            if rec.get('harness_error'):
+                b.harness_errors.append((pl['seed'], rec['harness_error'], rec.get('detail', '')))
+                continue
+            n += 1
+            compared += rec.get('embedded_reports_compared') or 0
+            for v in rec.get('violations') or []:
+                if v['property'] == 'C20':
+                    viols.append((pl, rec, v))
+    finally:
+        b.close()
+    return viols, {'simulated_monte_carlo_runs': n, 'embedded_reports_compared': compared, 'harness_errors': len(b.harness_errors)}
 
 
 def _write(root, name, text):
